@@ -88,3 +88,14 @@ Proof. vm_compute. reflexivity. Qed.
 Lemma w_zrle_cp24_fixed :
   match handle_msg (init_state f888 255 65 1) w_zrle_cp24 with Ok _ _ [] => True | _ => False end.
 Proof. vm_compute. exact I. Qed.
+
+(* F29 (known_findings.d/C08.json): HandleUltraZip computes ry + rw * 65535 in [int]; for rw >= 32769 the size wraps to a
+   negative value, the allocation is skipped and the block is decompressed into the NULL raw_buffer of a fresh
+   client (SEGV, reproduced under ASan: corpus/C08/w_ultrazip_hugew.script).  Present on the baseline; gone with fix 9
+   (notes/fix_C08_9.diff). *)
+Definition w_ultrazip_hugew : list tok := fbu1 1 0 40000 0 cE_UltraZip ++ [TL [0; 0; 0; 0; 0; 1; 0; 1; 0; 0; 0; 0; 170; 187; 204; 221]].
+Lemma w_ultrazip_hugew_oob : handle_msg (init_state f888 255 16 16) w_ultrazip_hugew = Oob 45.
+Proof. vm_compute. reflexivity. Qed.
+Lemma w_ultrazip_hugew_fixed :
+  match handle_msg (set_fix (init_state f888 255 16 16) 1023) w_ultrazip_hugew with Oob _ => False | _ => True end.
+Proof. vm_compute. exact I. Qed.
